@@ -217,6 +217,9 @@ class Run:
             same = state['exc'] is not None and x is state['exc']
             e = self.ev(ev=endname, inv=state['invoked'], out='raised', err=x.__class__.__name__,
                         same=same, ret={'k': 'none'})
+            if not same and os.environ.get('FBV_TB'):
+                import traceback
+                e['tb'] = ''.join(traceback.format_exception(type(x), x, x.__traceback__))[-1500:]
             if is_bf:
                 e['real'] = _real_state(self.sb.path(st['p']))
             if not st.get('catch', False):
